@@ -1,3 +1,90 @@
-import AdaVerif.Lemmas.Guard
+import AdaVerif.Model.UrlRec
+import AdaVerif.Lemmas.AggEditors
+/-
+C04 — `ada::url` and `ada::url_aggregator` are observationally identical.
+
+Lean side: `Model/UrlRec.lean` transcribes `ada::url`'s `get_href` (both paths), `get_href_size` and
+`get_components`; `toL` maps the record to the content the aggregator lays out.  Proved for every
+record: the fast path equals the general path where it applies; the size function is the length of
+the href; the href is the aggregator's buffer for the same content; the recomputed components are
+the aggregator's offsets.  (The last one was false on the pinned tree - `host_end` one short,
+`username_end` 0 without a host - and became provable after fixes 32af07f / b6b9d92.)
+
+Tie to the code (checks/props/c04.py): the same histories run on both C++ types with every
+observable compared pairwise, and the Lean model is evaluated on the fields of each `ada::url` state
+(`url.model`) and compared with the real href, size and components.
+-/
 namespace AdaVerif.Props.C04
+open AdaVerif AdaVerif.Model.Agg AdaVerif.Model.UrlRec
+
+/-- no credentials and no port without a host (C19's record invariant, the part needed here) -/
+def RecOk (r : Rec) : Prop := r.host = none → r.username = [] ∧ r.password = [] ∧ r.port = none
+
+theorem digitCount_eq (p : Nat) : (dec16 p).length = digitCount p := by
+  unfold dec16 digitCount; repeat' split
+  all_goals rfl
+
+/-- T1a: the `[[likely]]` fast path of `get_href` produces the general result -/
+theorem fast_eq_general (r : Rec) (h : fastCond r = true) : getHrefFast r = getHrefGeneral r := by
+  simp only [fastCond, Bool.and_eq_true] at h
+  obtain ⟨⟨⟨⟨_, hh⟩, hu⟩, hp⟩, hport⟩ := h
+  cases hhost : r.host with
+  | none => simp [hhost] at hh
+  | some hb =>
+    have hpn : r.port = none := by cases hpp : r.port <;> simp_all
+    cases hq : r.query <;> cases hf : r.hash <;>
+      simp [getHrefFast, getHrefGeneral, hhost, Rec.hasCredentials, hu, hp, hpn, hq, hf, List.append_assoc]
+
+/-- T1b: `get_href_size` is the length of `get_href`, for every record -/
+theorem hrefSize_eq (r : Rec) : getHrefSize r = (getHrefGeneral r).length := by
+  cases hhost : r.host <;> cases hq : r.query <;> cases hf : r.hash <;> cases hport : r.port <;>
+    cases hc : r.hasCredentials <;> cases hpe : r.password.isEmpty <;>
+    cases hd : (!r.opq && pathStartsSlashSlash r) <;>
+    simp [getHrefSize, getHrefGeneral, hhost, hq, hf, hport, hc, hpe, hd, digitCount_eq] <;> omega
+
+/-- T2: the href of the record is the aggregator's buffer for the same content -/
+theorem href_eq_layout (r : Rec) (ok : RecOk r) : getHrefGeneral r = (layout (toL r)).buf := by
+  cases hhost : r.host with
+  | none =>
+    obtain ⟨hu, hp, hport⟩ := ok hhost
+    cases hq : r.query <;> cases hf : r.hash <;> cases hd : (!r.opq && pathStartsSlashSlash r) <;>
+      simp [getHrefGeneral, layout, toL, hhost, hq, hf, hd, authS, passS, atS, portS, ddS, queryS, fragS, List.append_assoc]
+  | some hb =>
+    cases hq : r.query <;> cases hf : r.hash <;> cases hport : r.port <;> cases hu : r.username <;> cases hp : r.password <;>
+      simp [getHrefGeneral, layout, toL, hhost, hq, hf, hport, hu, hp, Rec.hasCredentials, authS, passS, atS, portS, ddS, queryS,
+        fragS, List.append_assoc]
+
+/-- T3: `url::get_components()` recomputes exactly the offsets the aggregator maintains -/
+theorem components_eq_layout (r : Rec) (ok : RecOk r) : getComponents r = componentsOf (layout (toL r)) := by
+  cases hhost : r.host with
+  | none =>
+    obtain ⟨hu, hp, hport⟩ := ok hhost
+    cases hq : r.query <;> cases hf : r.hash <;> cases hd : (!r.opq && pathStartsSlashSlash r) <;>
+      simp [getComponents, componentsOf, layout, toL, hhost, hq, hf, hd, hport, authS, passS, atS, portS, ddS, queryS, fragS] <;> omega
+  | some hb =>
+    cases hq : r.query <;> cases hf : r.hash <;> cases hport : r.port <;> cases hu : r.username <;> cases hp : r.password <;>
+      simp [getComponents, componentsOf, layout, toL, hhost, hq, hf, hport, hu, hp, Rec.hasCredentials, authS, passS, atS, portS,
+        ddS, queryS, fragS, digitCount_eq] <;> omega
+
+/-- hence: same content ⇒ same href, same size, same offsets on both representations -/
+theorem observationally_identical (r : Rec) (ok : RecOk r) :
+    getHref r = (layout (toL r)).buf ∧ getHrefSize r = (layout (toL r)).buf.length ∧
+    getComponents r = componentsOf (layout (toL r)) := by
+  refine ⟨?_, ?_, components_eq_layout r ok⟩
+  · unfold getHref; split
+    · rename_i h; rw [fast_eq_general r h, href_eq_layout r ok]
+    · exact href_eq_layout r ok
+  · rw [hrefSize_eq, href_eq_layout r ok]
+
+/-! non-vacuity -/
+def exR : Rec := { scheme := ofStr "https", special := true, username := ofStr "u", password := ofStr "p", host := some (ofStr "h.test"),
+                   port := some 8080, path := ofStr "/a", query := some [], hash := some (ofStr "f") }
+example : RecOk exR := by intro h; cases h
+example : getHref exR = ofStr "https://u:p@h.test:8080/a?#f" := by decide +kernel
+example : getComponents exR = { pe := 6, ue := 9, hs := 11, he := 18, port := some 8080, ps := 23, ss := some 25, hh := some 26 } := by
+  decide +kernel
+def exR2 : Rec := { scheme := ofStr "foo", special := false, username := [], password := [], host := none, port := none,
+                    path := ofStr "//p", query := none, hash := none }
+example : getHref exR2 = ofStr "foo:/.//p" := by decide +kernel
+
 end AdaVerif.Props.C04
